@@ -87,6 +87,13 @@ CHECKS = [
            "live grid after every step; catchment dictionary round trips on delineated catchments.",
       note="values are opaque tokens in the spec (equality of bit patterns observed); little-endian host",
       technique=TLA),
+ dict(property_id="C09", category="model_checking", design_ref="3.16",
+      text="CsvStore.tla models where write_csv stores a document and where read_csv looks for it (file-name rules, zip member names, candidate "
+           "order, archive members); TLC checks write-then-read returns the document for every name/mode and shows the pre-fix member rule fails; "
+           "CsvHeader.tla checks Decode(Encode) of the comment header on character sequences; every scenario and header case is replayed on the real "
+           "code and random frames are validated by CsvTrace.tla.",
+      note="pandas quoting/type inference trusted; values with ten consecutive dashes outside the domain",
+      technique=TLA),
 ]
 
 _PENDING = "check not built yet in this round; see DESIGN.md section 3 for the planned specification"
